@@ -18,6 +18,11 @@ LEVEL = "exploration"
 def events(env, tier):
     """menu of next items given the set of declared names"""
     ev = [d for d in A.DECLS if d[2] not in env]
+    # re-declaration of an existing scalar (the later declaration wins, and it may use the old value)
+    if "n" in env:
+        ev.append(("decl", "int", "n", B("+", V("n"), N("4"))))
+    if "x" in env:
+        ev.append(("decl", "float", "x", N("7.5")))
     for style, modes in A.MODE_FORMS:
         if all(A.needs(m) <= env for m in modes):
             ev.append(("stmt", "G", None, [], modes, style))
@@ -155,7 +160,7 @@ def _long(sc):
 def run(ctx):
     # (metadata variants, depth, menu) per phase; every phase is a complete enumeration
     if ctx.quick:
-        phases = [("first2", 2, "full"), ("all", 1, "full"), ("all", 2, "core"), ("first", 3, "core")]
+        phases = [("first", 2, "full"), ("all", 1, "full"), ("all", 2, "core"), ("first", 3, "core")]
     else:
         phases = [("first", 3, "full"), ("all", 2, "full"), ("all", 3, "core")]
     stats = collections.Counter()
